@@ -827,3 +827,28 @@ pub fn self_loop_family(rng: &mut Rng) -> Shape {
     p.push(Ins::ret());
     Shape { name: "function-loops-to-its-own-entry", prog: p }
 }
+
+/// Environment calls that RARS has but the analyzer's table does not list (C01): whatever the
+/// analyzer assumes about them, it must not go on claiming values for registers they write.
+pub fn unlisted_ecall_family(rng: &mut Rng) -> Shape {
+    let mut p = Program::default();
+    p.label("main");
+    p.push(Ins::La { rd: A0, label: "msg".into() });
+    p.push(Ins::li(11, rng.range(1, 40) as i32));
+    p.push(Ins::li(5, rng.range(1, 40) as i32));
+    p.push(Ins::li(A7, *rng.pick(&[52, 53])));
+    p.push(Ins::Ecall);
+    if rng.chance(0.5) {
+        p.push(Ins::mv(A7, 11));
+        p.push(Ins::Ecall);
+    }
+    p.push(Ins::Alu { op: AluOp::Add, rd: 6, rs1: 11, rs2: 5 });
+    p.push(Ins::mv(A0, 6));
+    p.push(Ins::li(A7, 1));
+    p.push(Ins::Ecall);
+    exit(&mut p);
+    p.lines.push(Line::SecData);
+    p.label("msg");
+    p.lines.push(Line::Data(Data::Asciz("value?".into())));
+    Shape { name: "ecall-not-in-the-analyzers-table", prog: p }
+}
